@@ -78,6 +78,9 @@ class C06(core.Prop):
         'are tied by the cx.detect op, file effects are decided by the oracle',
     ]
 
+    def revive(self, case):
+        return cx.revive(case)
+
     def corpus(self):
         return []
 
